@@ -318,10 +318,24 @@ for q in req.get('extra_structs', []):
         out.setdefault('warnings', []).append('no type %s in this translation unit (requested by the job)' % q)
 
 # --- scalar requests: [uid, name]
-for uid, name in req.get('scalars', []):
+for ent_ in req.get('scalars', []):
+    uid, name = ent_[0], ent_[1]
     if uid in hint_scalar:
         out['scalars'][uid] = {'ctype': hint_scalar[uid]}
         continue
+    # a member typedef of the class whose method produces the value
+    got = None
+    for sc in (ent_[2] if len(ent_) > 2 else []):
+        try:
+            got = scalar_ctype(gdb.lookup_type(sc + '::' + name))
+        except gdb.error:
+            got = None
+        if got:
+            break
+    if got:
+        out['scalars'][uid] = {'ctype': got}
+        continue
+    scope_hint = (ent_[2] if len(ent_) > 2 else [])
     cts = {}
     for cq in candidates(name, None):
         try:
@@ -336,6 +350,36 @@ for uid, name in req.get('scalars', []):
             else:
                 s = '?' + str(st)
         cts.setdefault(s, []).append(cq)
+    if len(cts) != 1 and scope_hint:
+        # gdb cannot look up a member typedef of a class template by qualified name; take the candidates declared in a
+        # class that shares a template argument with the class whose method produces the value (std::string::at() ->
+        # value_type of allocator_traits<allocator<char> >); recorded as a heuristic resolution
+        def targs(q):
+            i = q.find('<')
+            if i < 0: return []
+            body = q[i + 1:q.rfind('>')]
+            res, depth, cur = [], 0, ''
+            for ch in body:
+                if ch == '<': depth += 1
+                elif ch == '>': depth -= 1
+                if ch == ',' and depth == 0:
+                    res.append(cur.strip()); cur = ''
+                else:
+                    cur += ch
+            if cur.strip(): res.append(cur.strip())
+            return res
+        wanted = set()
+        for sc in scope_hint:
+            wanted.update(a_ for a_ in targs(sc) if '<' in a_)
+        if wanted:
+            keep = {k: [c for c in v if any(('<' + w + ' >') in c or ('<' + w + '>') in c or ('<' + w + ',') in c for w in wanted)] for k, v in cts.items()}
+            keep = {k: v for k, v in keep.items() if v}
+            if len(keep) == 1:
+                cts = keep
+                out.setdefault('warnings', []).append('typedef %s (uid %s) resolved to %s through template-argument matching with %s' % (name, uid, list(keep)[0], scope_hint))
+    if len(cts) != 1 and uid in set(req.get('arith_scalars', [])):
+        # the GIMPLE uses this type with an integer literal (`_Literal (T) 32`): it is an arithmetic type
+        cts = {k: v for k, v in cts.items() if not k.startswith('?') and k != 'void *'}
     if len(cts) == 1:
         out['scalars'][uid] = {'ctype': list(cts)[0]}
     else:
